@@ -17,5 +17,6 @@ func main() {
 	hx.Register("c04", c04Main)
 	hx.Register("c07", c07Main)
 	hx.Register("c07c", c07cMain)
+	hx.Register("c07h", c07hMain)
 	hx.Main()
 }
